@@ -20,7 +20,7 @@ def run(ctx):
     import dimwise_gen
     dimwise_gen.run(ctx, drv, PROP)       # translator tie: regenerate the Lean definitions of the dimension-wise logic from the current source
     n = 110 if not thorough else 1200
-    budget = 80 if not thorough else 580
+    budget = 75 if not thorough else 520
     first_break = None
     for k in range(n):
         if ctx.time_left(budget) < 0:
